@@ -314,4 +314,47 @@ HandCompressed(m) ==
 
 \* has the type a name anywhere in its RDATA layout?
 HasNameField(t) == \E i \in 1..Len(FieldsOf(t)) : FieldsOf(t)[i].k \in {"name", "cname", "names", "gateway"}
+
+-----------------------------------------------------------------------------
+(* Pointer chains.  "Decode to exactly the same message" is said of decoders,  *)
+(* and a decoder follows a bounded number of pointers per name.  The bound a   *)
+(* decoder can take from RFC 1035 itself: a name has at most MaxName \div 2    *)
+(* labels (127), and a pointer of a compressor that points at names (first     *)
+(* occurrences of label sequences, as PackImpl does -- MC_Compress: Chains)    *)
+(* is followed by at least one label, so no name needs more hops than it has   *)
+(* labels.  The admission of a pointer that leads to a pointer (AMBIG above)   *)
+(* stands for every single target; the CHAIN read for one name is bounded:     *)
+(* more than MaxPtrHops pointers for one name is "pointer-chain-too-deep".     *)
+(* (spec/Framing.tla takes the same 127 as what a legitimate encoding needs;   *)
+(* the library's own reader stops after 126, which the check observes apart:   *)
+(* checks/c04.py OWN.)  Hops is read off the hints of a part stream, which     *)
+(* PtrStage verified; for names TLC decodes itself it is DecName(...).hops.    *)
+MaxPtrHops == MaxName \div 2
+
+RECURSIVE Hops(_, _)
+Hops(s, x) ==
+  IF s[x].k # "n" \/ s[x].ptr = -1 THEN 0
+  ELSE IF s[x].tk \in 1..(x - 1) THEN 1 + Hops(s, s[x].tk) ELSE 1
+
+DeepPartsN(s, lim) == { x \in 1..Len(s) : s[x].k = "n" /\ s[x].ptr # -1 /\ Hops(s, x) > lim }
+ChainStageN(s, lim) == IF DeepPartsN(s, lim) = {} THEN "ok" ELSE "pointer-chain-too-deep"
+ChainBad(s) == LET d == DeepPartsN(s, MaxPtrHops) IN IF d = {} THEN 0 ELSE CHOOSE x \in d : \A y \in d : x <= y
+
+\* does the chain read for name part x pass through a pointer that is the target of a pointer (no label in between)?
+RECURSIVE ChainDegenerate(_, _)
+ChainDegenerate(s, x) ==
+  IF s[x].k # "n" \/ s[x].ptr = -1 \/ ~(s[x].tk \in 1..(x - 1)) THEN FALSE
+  ELSE LET q == s[s[x].tk] IN
+       (s[x].tj = Len(q.lits) + 1 /\ q.ptr # -1) \/ ChainDegenerate(s, s[x].tk)
+
+(* The judge with the chain clause (JudgeStreams is kept as it was).           *)
+JudgeStreamsH(bc, bu, sc, su, from) ==
+  LET j == JudgeStreams(bc, bu, sc, su, from) IN
+  IF j # "ok" THEN j ELSE ChainStageN(sc, MaxPtrHops)
+
+ValidCompressedStageH(bc, bu) ==
+  LET wu == StreamOf(bu)  wc == StreamOf(bc) IN
+  IF ~wu.ok THEN "uncompressed-unreadable:" \o wu.why
+  ELSE IF ~wc.ok THEN "compressed-unreadable:" \o wc.why
+  ELSE JudgeStreamsH(bc, bu, WithHints(wc.parts), WithHints(wu.parts), 12)
 =============================================================================
